@@ -47,11 +47,12 @@ CLAIMS = {
          "archetype.Stats/UpdateStats and World.Stats (sums over tables and archetypes) are not under contract"),
  "C14": ("proof", "Schema-instantiated contracts (generated mechanically for every arity by tools/gen_arity_contracts.py, one statement per arity and type-parameter position) on the generic origin of the generated code: QueryN.setTable wires column pointer and item size number k to the column of component number k of the table (N = 1..8), QueryN.Get returns for position k exactly column pointer k advanced by cursor.index items of size k, NewMapN (N = 1..12) and NewFilterN (N = 1..8) take storage pointer number k from component id number k and build the mask that is exactly the set of their ids (newMask proved against the set view). These are the places where an untyped pointer, an item size or an id position can be mixed up without a compile error.", "6 C14",
          "the generic origins are verified once with the type parameters instantiated by a fixed type (the code does not depend on them); ComponentID is trusted; that the k-th id is the id of the k-th type parameter (reflect.TypeFor) is not expressible; Map/Exchange operations delegate to World.add/remove/exchange (C01); the remaining generated methods (batch, observers, relations accessors) are not under contract"),
+ "C11": ("exploration", "BOUNDED stand-in, labelled bounded and not counted as proved: the data-plane functions (column.ZeroRange/Reset/Zero/Set/CopyToEnd, and through World operations table.Add/Remove/Reset/AddAll/adjustCapacity/Shrink) move raw memory through unsafe/reflect and are outside the reach of the contract verifier, which uses them through trusted contracts. bounded/C11_dataplane_test.go executes the real functions on EVERY case up to capacity 70 (all start/len pairs, six pointer-free item layouts incl. size 0 and 3, a pointer-bearing layout, Reset on both sides of its 64-row strategy switch) and compares the memory byte for byte with the contract; and it checks the clean-memory invariant (every row at or beyond len of every table is all-zero in every column) after every step of 420 enumerated histories (1..70 entities x single removal / batch removal / single move / batch move / removal+Shrink / Reset), then that components added without a value read as zero. The first clause of C11 is decided up to that bound.", "9, 11.7",
+         "bounded (capacity <= 70, the listed layouts and histories); GC-safety of copies of pointer-bearing components and collectability of data referenced only by removed components are runtime properties that no contract or bounded check here expresses: not claimed; table.Shrink/CanShrink obligations (C15) that serve C11 are proved deductively"),
 }
 
 NA = {
  "C06": "not decided: the batch operations (exchangeBatch, setRelationsBatch, RemoveEntities, NewEntities and the *BatchFn wrappers) have 5-11 loops each over callees that are not yet under contract; only the lock balance of these functions (C07) and the relation predicate table.Matches are checked, which does not carry the property",
- "C11": "not decided: zeroing and GC-safe copying live in the data-plane functions (column.*, table.Remove/adjustCapacity, copyPtr/copyValue), which this family treats through trusted contracts; the bounded harness of DESIGN 4.1 that would check those contracts against the real bodies was not built, and collectability under a concurrent collector is a runtime property no contract expresses",
 }
 DEFAULT_NA = "check not built yet in this session (engine exists; contracts for the functions this property is anchored in are still to be written; see DESIGN.md section 8.3)"
 
